@@ -326,6 +326,24 @@ def r6_r7(tree, prog, rep):
     rep.check("C02.R7", "application messages are indexed by int(<phase label>)", ok, site(gm, BOSS), key="C02.R7:phase-int")
 
 
+def r8(tree, prog, rep):
+    """a decrypted application message is delivered at the position its (authenticated) phase label names: Boss files it under
+    that phase and hands out phase n as the n-th message - the server cannot permute, skip or re-label authentic messages
+    (the rule instances are those of C03.R2)"""
+    from .C03 import r2 as c03_r2
+    sub = type(rep)(rep.pid, rep.tier, rep.seed)
+    c03_r2(tree, prog, sub)
+    for o in sub.obligations:
+        if o["rule"] == "C03.R2":
+            rep.obligations.append(dict(o, rule="C02.R8"))
+            rep.evaluations += 1
+    for v in sub.violations:
+        if v["rule"] == "C03.R2":
+            rep.violation("C02.R8", v["key"].replace("C03.R2", "C02.R8"),
+                          v["what"] + " (an authentic message is delivered under another position than the phase it was encrypted for)",
+                          v.get("site"), v.get("detail"), _count=False)
+
+
 def run(tree, rep, tier):
     prog = Program(tree)
     r1(tree, rep)
@@ -333,6 +351,7 @@ def run(tree, rep, tier):
     r3(tree, prog, rep)
     r4_r5(tree, prog, rep)
     r6_r7(tree, prog, rep)
+    r8(tree, prog, rep)
 
 
 _REC = "src/wormhole/_receive.py"
